@@ -5,98 +5,99 @@
  *   janet_mark_abstract(ev_stream); ev_callback(fiber, JANET_ASYNC_EVENT_MARK); then the child fiber.
  * Ghost selectors pick ONE fiber of the chain (g_lvl), ONE frame of its chain (g_fr), ONE of the two walker ranges (g_wsel) and
  * ONE of the two abstract edges (g_asel) - the proof covers every choice.
- * BOUNDED: the frame walk follows data-dependent indices and the child walk chases a pointer (DESIGN R14, C01 note):
- * <= 3 frames per fiber, <= 2 fibers in the child chain; stack capacity symbolic. Unwinding assertions on. */
+ *
+ * BOUNDED, plain mode (the dfcc encoding of this routine needs > 14 GB with a symbolic stack size and 2 min with a fixed one):
+ * the frame walk follows data-dependent indices and the child walk chases a pointer (DESIGN R14, C01 note):
+ * <= 3 frames per fiber, <= 2 fibers in the child chain, stacks of VC_NSLOTS slots with arbitrary contents.  Unwinding assertions on.
+ * The callees are replaced by recording stubs (goto-instrument --replace-calls); the standard memory-safety checks of the real
+ * routine are on: every frame header read lies inside the stack under the fiber representation invariant. */
 #include "gc_mark.h"
-
-int g_lvl, g_fr, g_wsel, g_asel; int32_t g_ik, g_jk;   /* g_ik/g_jk: index of the selected frame and end of its slot range */
-int32_t g_a0, g_a1, g_a2, g_b0, g_b1, g_b2;   /* ghost: the frame chains (frame indices, 0 = end) of the two fibers */
-int32_t g_f0, g_f1;                           /* ghost: entry snapshot of the header flags */
-const void *g_cbf; int g_cb_seen; unsigned g_cb_calls;
-
-/* the only event callback of this unit: records that it was asked to MARK its state for the selected fiber */
-void vc_ev_cb(JanetFiber *fiber, JanetAsyncEvent event) {
-  g_cb_seen = g_cb_seen || ((const void *) fiber == g_cbf && event == JANET_ASYNC_EVENT_MARK);
-  g_cb_calls = g_cb_calls + 1u;
-}
-
-#define FR(F, i) ((JanetStackFrame *)((F)->data + (i) - JANET_FRAME_SIZE))
-/* bound: the stack has exactly VC_NSLOTS slots (byte-level reads of frame headers at symbolic offsets of a symbolic-size object exhaust memory) */
 #ifndef VC_NSLOTS
 #define VC_NSLOTS 24
 #endif
-#define MAXCAP VC_NSLOTS
+
+int g_lvl, g_fr, g_wsel, g_asel; int32_t g_ik, g_jk;   /* g_ik/g_jk: index of the selected frame and end of its slot range */
+const void *g_cbf; int g_cb_seen; unsigned g_cb_calls;
+
+/* recording stubs (same meaning as the recording contracts of gc_mark.h) */
+void rec_mark(Janet x) { g_val_seen = g_val_seen || JEQ(x, g_val); g_val_calls++; }
+void rec_many(const Janet *values, int32_t n) { g_w_seen = g_w_seen || (g_w_kind == W_MANY && (const void *) values == g_w_base && n == g_w_n); g_w_calls++; }
+void rec_function(JanetFunction *func) { g_fn_seen = g_fn_seen || (const void *) func == g_fn; g_fn_calls++; }
+void rec_funcenv(JanetFuncEnv *env) { g_env_seen = g_env_seen || (const void *) env == g_env; g_env_calls++; }
+void rec_table(JanetTable *table) { g_tab_seen = g_tab_seen || (const void *) table == g_tab; g_tab_calls++; }
+void rec_abstract(void *adata) { g_abs_seen = g_abs_seen || (const void *) adata == g_abs; g_abs_calls++; }
+/* the only event callback of this unit: records that it was asked to MARK its state for the selected fiber */
+void vc_ev_cb(JanetFiber *fiber, JanetAsyncEvent event) {
+  g_cb_seen = g_cb_seen || ((const void *) fiber == g_cbf && event == JANET_ASYNC_EVENT_MARK);
+  g_cb_calls++;
+}
+
+#define FR(F, i) ((JanetStackFrame *)((F)->data + (i) - JANET_FRAME_SIZE))
 /* representation invariant of a fiber stack (fiber.c: janet_fiber_reset, janet_fiber_funcframe, janet_fiber_cframe, popframe; same as unit fiber.env_valid):
  * 0 <= stackstart <= stacktop <= capacity; the current frame header lies below stackstart; the frame chain is well founded:
  * every frame index i > 0 has FRAME_SIZE <= i, its header's prevframe is in [0, i - FRAME_SIZE].  (i0, i1, i2) name the chain. */
 #define WF_FRAME(F, i, prev) ((i) >= 0 && ((i) > 0 ==> ((i) >= JANET_FRAME_SIZE && (i) <= (F)->capacity && (prev) == FR(F, i)->prevframe && (prev) >= 0 && (prev) <= (i) - JANET_FRAME_SIZE)) && ((i) == 0 ==> (prev) == 0))
-#define WF_FIBER(F, i0, i1, i2) ((F)->capacity == MAXCAP && (F)->stackstart >= 0 && (F)->stackstart <= (F)->stacktop && (F)->stacktop <= (F)->capacity && \
+#define WF_FIBER(F, i0, i1, i2) ((F)->stackstart >= 0 && (F)->stackstart <= (F)->stacktop && (F)->stacktop <= (F)->capacity && \
    (i0) == (F)->frame && ((i0) > 0 ==> (i0) <= (F)->stackstart - JANET_FRAME_SIZE) && WF_FRAME(F, i0, i1) && WF_FRAME(F, i1, i2) && \
    /* bound: at most 3 frames */ (i2) >= 0 && ((i2) > 0 ==> ((i2) >= JANET_FRAME_SIZE && (i2) <= (F)->capacity && FR(F, i2)->prevframe == 0)) && \
    ((F)->ev_callback == (JanetEVCallback) 0 || (F)->ev_callback == vc_ev_cb))
-/* the selected frame index and the end of its slot range */
-#define IK(i0, i1, i2) (g_ik)
-#define JK(F, i0, i1, i2) (g_jk)
-#define SELECT_FRAME(F, i0, i1, i2) (g_ik == (g_fr == 0 ? (i0) : g_fr == 1 ? (i1) : (i2)) && \
-   g_jk == (g_fr == 0 ? (F)->stackstart - JANET_FRAME_SIZE : g_fr == 1 ? (i0) - JANET_FRAME_SIZE : (i1) - JANET_FRAME_SIZE))
-#define EXPECT(F, i0, i1, i2) (SELECT_FRAME(F, i0, i1, i2) && JEQ(g_val, (F)->last_value) && g_tab == (const void *) (F)->env && g_cbf == (const void *) (F) && \
-   g_abs == (g_asel == 0 ? (const void *) (F)->supervisor_channel : (const void *) (F)->ev_stream) && g_w_kind == W_MANY && \
-   (IK(i0, i1, i2) > 0 ==> (g_fn == (const void *) FR(F, IK(i0, i1, i2))->func && g_env == (const void *) FR(F, IK(i0, i1, i2))->env)) && \
-   (g_wsel == 0 ==> (g_w_base == (const void *) ((F)->data + (F)->stackstart) && g_w_n == (F)->stacktop - (F)->stackstart)) && \
-   ((g_wsel == 1 && IK(i0, i1, i2) > 0) ==> (g_w_base == (const void *) ((F)->data + IK(i0, i1, i2)) && g_w_n == JK(F, i0, i1, i2) - IK(i0, i1, i2))))
-/* what the PROPERTY demands for a fiber the walk reaches */
-#define EDGES(F, f0, i0, i1, i2) ((F)->gc.flags == ((f0) | JANET_MEM_REACHABLE) && g_val_seen && (g_wsel == 0 ==> g_w_seen) && \
-   ((IK(i0, i1, i2) > 0 && FR(F, IK(i0, i1, i2))->func != (JanetFunction *) 0) ==> g_fn_seen) && \
-   ((IK(i0, i1, i2) > 0 && FR(F, IK(i0, i1, i2))->env != (JanetFuncEnv *) 0) ==> g_env_seen) && \
-   ((IK(i0, i1, i2) > 0 && g_wsel == 1) ==> g_w_seen) && \
-   ((F)->env != (JanetTable *) 0 ==> g_tab_seen) && \
-   ((g_asel == 0 && (F)->supervisor_channel != (void *) 0) ==> g_abs_seen) && ((g_asel == 1 && (F)->ev_stream != (JanetStream *) 0) ==> g_abs_seen) && \
-   ((F)->ev_callback != (JanetEVCallback) 0 ==> g_cb_seen))
-
-#define C1(f) ((f)->child)
-#define HAS1(f) (C1(f) != (JanetFiber *) 0)
 #define UNM(fl) (((fl) & JANET_MEM_REACHABLE) == 0)
-#define REACH0 (UNM(g_f0))
-#define REACH1(f) (REACH0 && HAS1(f) && UNM(g_f1))
+#define EDGE(c, msg) __CPROVER_assert(c, "C01 mark_fiber: " msg)
+static void check_edges(JanetFiber *F, int32_t f0) {
+  EDGE(F->gc.flags == (f0 | JANET_MEM_REACHABLE), "a fiber the walk reaches is marked (and nothing else of its header changes)");
+  EDGE(g_val_seen, "last_value is marked");
+  EDGE(g_wsel != 0 || g_w_seen, "the argument stack data[stackstart..stacktop) is handed to janet_mark_many");
+  if (g_ik > 0) {
+    EDGE(FR(F, g_ik)->func == (JanetFunction *) 0 || g_fn_seen, "the function of every frame is marked");
+    EDGE(FR(F, g_ik)->env == (JanetFuncEnv *) 0 || g_env_seen, "the closure environment of every frame is marked");
+    EDGE(g_wsel != 1 || g_w_seen, "the slots data[i..j) of every frame are handed to janet_mark_many");
+  }
+  EDGE(F->env == (JanetTable *) 0 || g_tab_seen, "the fiber's environment table is marked");
+  EDGE(!(g_asel == 0 && F->supervisor_channel != (void *) 0) || g_abs_seen, "the supervisor channel is marked");
+  EDGE(!(g_asel == 1 && F->ev_stream != (JanetStream *) 0) || g_abs_seen, "the stream the fiber waits on is marked");
+  EDGE(F->ev_callback == (JanetEVCallback) 0 || g_cb_seen, "the pending event callback is asked to mark its state (JANET_ASYNC_EVENT_MARK)");
+}
 
-static void janet_mark_fiber_spec(JanetFiber *fiber)
-__CPROVER_requires(__CPROVER_is_fresh(fiber, sizeof(JanetFiber)))
-__CPROVER_requires(__CPROVER_is_fresh(fiber->data, sizeof(Janet) * MAXCAP))
-__CPROVER_requires(WF_FIBER(fiber, g_a0, g_a1, g_a2))
-__CPROVER_requires(C1(fiber) == (JanetFiber *) 0 || __CPROVER_is_fresh(C1(fiber), sizeof(JanetFiber)))
-__CPROVER_requires(C1(fiber) == (JanetFiber *) 0 || __CPROVER_is_fresh(C1(fiber)->data, sizeof(Janet) * MAXCAP))
-__CPROVER_requires(HAS1(fiber) ==> WF_FIBER(C1(fiber), g_b0, g_b1, g_b2))
-/* bound: child chain of at most 2 fibers */
-__CPROVER_requires(HAS1(fiber) ==> C1(fiber)->child == (JanetFiber *) 0)
-#ifdef VC_FIBER_CHILD
-/* unit gc.mark.fiber.child: the parent has no frames, the child at most VC_CHILD_FRAMES */
-__CPROVER_requires(g_a0 == 0 && (VC_CHILD_FRAMES < 3 ==> g_b2 == 0) && (VC_CHILD_FRAMES < 2 ==> g_b1 == 0))
-#else
-/* unit gc.mark.fiber: the child, if any, has already been visited (the walk stops there); the child walk is unit gc.mark.fiber.child */
-__CPROVER_requires(HAS1(fiber) ==> !UNM(C1(fiber)->gc.flags))
-#endif
-/* ghost snapshots, selectors, expectations */
-__CPROVER_requires(g_f0 == fiber->gc.flags && g_f1 == (HAS1(fiber) ? C1(fiber)->gc.flags : 0))
-__CPROVER_requires(g_lvl >= 0 && g_lvl <= 1 && g_fr >= 0 && g_fr <= 2 && g_wsel >= 0 && g_wsel <= 1 && g_asel >= 0 && g_asel <= 1)
-__CPROVER_requires(g_lvl == 0 ==> EXPECT(fiber, g_a0, g_a1, g_a2))
-__CPROVER_requires((g_lvl == 1 && HAS1(fiber)) ==> EXPECT(C1(fiber), g_b0, g_b1, g_b2))
-__CPROVER_requires(!g_val_seen && !g_w_seen && !g_fn_seen && !g_env_seen && !g_tab_seen && !g_abs_seen && !g_cb_seen)
-__CPROVER_requires(g_val_calls == 0 && g_w_calls == 0 && g_fn_calls == 0 && g_env_calls == 0 && g_tab_calls == 0 && g_abs_calls == 0 && g_cb_calls == 0)
-__CPROVER_assigns(fiber->gc.flags, g_val_seen, g_w_seen, g_fn_seen, g_env_seen, g_tab_seen, g_abs_seen, g_cb_seen,
-                  g_val_calls, g_w_calls, g_fn_calls, g_env_calls, g_tab_calls, g_abs_calls, g_cb_calls)
-__CPROVER_assigns(HAS1(fiber): C1(fiber)->gc.flags)
-/* C01: every edge of every fiber the walk reaches */
-__CPROVER_ensures((g_lvl == 0 && REACH0) ==> EDGES(fiber, g_f0, g_a0, g_a1, g_a2))
-__CPROVER_ensures((g_lvl == 1 && REACH1(fiber)) ==> EDGES(C1(fiber), g_f1, g_b0, g_b1, g_b2))
-/* the child edge itself */
-__CPROVER_ensures(REACH1(fiber) ==> C1(fiber)->gc.flags == (g_f1 | JANET_MEM_REACHABLE))
-/* a visited fiber is not traversed again (terminates fiber <-> closure cycles) and its header is left alone */
-__CPROVER_ensures(!REACH0 ==> (fiber->gc.flags == g_f0 && g_val_calls == 0 && g_w_calls == 0 && g_fn_calls == 0 && g_env_calls == 0 && g_tab_calls == 0 && g_abs_calls == 0 && g_cb_calls == 0))
-__CPROVER_ensures((HAS1(fiber) && !REACH1(fiber)) ==> C1(fiber)->gc.flags == g_f1)
-;
-
+JanetEVCallback g_cb_addr = vc_ev_cb;   /* address taken: vc_ev_cb is the candidate of the indirect call fiber->ev_callback(...) */
 void h_mark_fiber(void) {
-  JanetFiber *f;
-  janet_mark_fiber(f);
+  JanetFiber F0, F1, *fiber = &F0; Janet g_stack0[VC_NSLOTS], g_stack1[VC_NSLOTS];   /* uninitialised locals: arbitrary contents */
+  /* arbitrary stack contents, arbitrary fiber fields */
+  F0.data = g_stack0; F0.capacity = VC_NSLOTS; F1.data = g_stack1; F1.capacity = VC_NSLOTS;
+  int has1 = nd_int();
+  F0.child = has1 ? &F1 : (JanetFiber *) 0;
+  F1.child = (JanetFiber *) 0;                                   /* bound: child chain of at most 2 fibers */
+  int32_t a0 = nd_i32(), a1 = nd_i32(), a2 = nd_i32(), b0 = nd_i32(), b1 = nd_i32(), b2 = nd_i32();
+  __CPROVER_assume(WF_FIBER(&F0, a0, a1, a2));
+  __CPROVER_assume(WF_FIBER(&F1, b0, b1, b2));
+  int32_t f0 = F0.gc.flags, f1 = F1.gc.flags;
+  /* ghost selectors: one fiber S of the chain, one frame (g_ik, slots end g_jk) of its frame chain, one walker range, one abstract edge */
+  g_lvl = nd_int(); g_fr = nd_int(); g_wsel = nd_int(); g_asel = nd_int();
+  __CPROVER_assume(g_lvl >= 0 && g_lvl <= 1 && g_fr >= 0 && g_fr <= 2 && g_wsel >= 0 && g_wsel <= 1 && g_asel >= 0 && g_asel <= 1);
+  JanetFiber *S = g_lvl == 0 ? &F0 : &F1;
+  int32_t s0 = g_lvl == 0 ? a0 : b0, s1 = g_lvl == 0 ? a1 : b1, s2 = g_lvl == 0 ? a2 : b2;
+  g_ik = g_fr == 0 ? s0 : g_fr == 1 ? s1 : s2;
+  g_jk = g_fr == 0 ? S->stackstart - JANET_FRAME_SIZE : g_fr == 1 ? s0 - JANET_FRAME_SIZE : s1 - JANET_FRAME_SIZE;
+  g_val = S->last_value; g_tab = S->env; g_cbf = S;
+  g_abs = g_asel == 0 ? (const void *) S->supervisor_channel : (const void *) S->ev_stream;
+  g_fn = g_env = (const void *) 0;
+  if (g_ik > 0) { g_fn = FR(S, g_ik)->func; g_env = FR(S, g_ik)->env; }
+  g_w_kind = W_MANY;
+  if (g_wsel == 0) { g_w_base = S->data + S->stackstart; g_w_n = S->stacktop - S->stackstart; }
+  else { g_w_base = g_ik > 0 ? (const void *) (S->data + g_ik) : (const void *) 0; g_w_n = g_jk - g_ik; }
+  g_val_seen = g_w_seen = g_fn_seen = g_env_seen = g_tab_seen = g_abs_seen = g_cb_seen = 0;
+  g_val_calls = g_w_calls = g_fn_calls = g_env_calls = g_tab_calls = g_abs_calls = g_cb_calls = 0;
+
+  janet_mark_fiber(fiber);
+
+  int reach0 = UNM(f0), reach1 = reach0 && has1 && UNM(f1);
+  if (g_lvl == 0 && reach0) { check_edges(&F0, f0); REACH("parent fiber traversed"); }
+  if (g_lvl == 1 && reach1) { check_edges(&F1, f1); REACH("child fiber traversed"); }
+  if (reach1) EDGE(F1.gc.flags == (f1 | JANET_MEM_REACHABLE), "the child fiber is marked");
+  /* a visited fiber is not traversed again (terminates fiber <-> closure cycles); unreached fibers keep their header */
+  if (!reach0) EDGE(F0.gc.flags == f0 && g_val_calls == 0 && g_w_calls == 0 && g_fn_calls == 0 && g_env_calls == 0 && g_tab_calls == 0 && g_abs_calls == 0 && g_cb_calls == 0,
+                    "an already marked fiber is left alone");
+  if (!reach1) EDGE(F1.gc.flags == f1, "a fiber the walk does not reach keeps its header");
+  /* frame: nothing but the two headers is written */
+  EDGE(F0.frame == a0 && F0.child == (has1 ? &F1 : (JanetFiber *) 0) && F0.data == g_stack0, "the mark phase does not modify the fiber");
   REACH("janet_mark_fiber returns");
 }
